@@ -70,6 +70,8 @@ def run_one(scn_seed, miri_seed, threads_mask=None, max_ops=None):
     info = None
     if m:
         info = dict(threads=int(m.group(2)), ops=int(m.group(3)), distinct_ops=int(m.group(4)), order=m.group(5), overlap=m.group(6) == "true")
+        rh = re.search(r"REFHASH ([0-9a-f]+)", out)
+        info["refhash"] = rh.group(1) if rh else None
     detail = ""
     if kind not in ("clean",):
         lines = [l for l in out.splitlines() if ("error" in l or "MISMATCH" in l or "panicked" in l or "Data race" in l or "deadlock" in l.lower())]
@@ -171,6 +173,24 @@ def run_engine(seed, executions, jobs, replay_dir, seeds_per_scenario=4):
     violations = []
     seen = set()
     harness = []
+    # the cold-thread reference values of one scenario must be the same in every execution of it
+    # (each execution is a separate process with a different interleaving of the first touches)
+    by_scn = {}
+    for r in results:
+        if r["kind"] == "clean" and r["info"] and r["info"].get("refhash"):
+            by_scn.setdefault(r["scn_seed"], {}).setdefault(r["info"]["refhash"], r)
+    ref_groups = len(by_scn)
+    ref_group_mismatch = 0
+    for scn, d in by_scn.items():
+        if len(d) > 1:
+            ref_group_mismatch += 1
+            a, b = list(d.values())[:2]
+            a = dict(a)
+            a["kind"] = "reference_differs_between_executions"
+            a["detail"] = "cold-thread reference values of scenario %d differ between miri seeds %d and %d (REFHASH %s vs %s)" % (
+                scn, a["miri_seed"], b["miri_seed"], a["info"]["refhash"], b["info"]["refhash"])
+            a["other_seed"] = b["miri_seed"]
+            results.append(a)
     for r in results:
         if r["kind"] in ("clean", "unsupported"):
             continue
@@ -180,6 +200,15 @@ def run_engine(seed, executions, jobs, replay_dir, seeds_per_scenario=4):
         if r["kind"] in seen or len(violations) >= 2:
             continue
         seen.add(r["kind"])
+        if r["kind"] == "reference_differs_between_executions":
+            path = os.path.join(replay_dir, "C13-M-%d-%d.json" % (r["scn_seed"], r["miri_seed"]))
+            rep = dict(property="C13", engine="M", scenario_seed=r["scn_seed"], miri_seed=r["miri_seed"], other_miri_seed=r["other_seed"],
+                       threads_mask=None, max_ops=None, miriflags=BASE_FLAGS, plan=list_plan(r["scn_seed"]),
+                       violation=dict(kind=r["kind"], detail=r["detail"]), minimised=False)
+            with open(path, "w") as f:
+                json.dump(rep, f, indent=1)
+            violations.append(dict(replay=path, line=r["detail"], minimised=False, replay_confirmed=True, steps_before=r["info"]["ops"], steps_after=r["info"]["ops"], shrink_evals=0))
+            continue
         m = minimise(r, jobs)
         path = os.path.join(replay_dir, "C13-M-%d-%d.json" % (m["scn_seed"], m["miri_seed"]))
         confirm = run_one(m["scn_seed"], m["miri_seed"], m["threads_mask"], m["max_ops"])
@@ -214,6 +243,8 @@ def run_engine(seed, executions, jobs, replay_dir, seeds_per_scenario=4):
             "racing_first_touch_of_lazy_tables": len(results),
         },
         "determinism": {"pairs_run_twice": len(det_pairs), "mismatches": det_mismatch},
+        "reference_value_groups(same scenario, different executions)": ref_groups,
+        "reference_value_group_mismatches": ref_group_mismatch,
         "wall_s": round(wall, 2),
     }
     out = dict(executions=len(results), distinct_nontrivial=len(orders), summary=summary, violations=violations, samples=samples,
@@ -230,6 +261,12 @@ def replay(path):
         print(out[-2000:])
         return 2
     r = run_one(rep["scenario_seed"], rep["miri_seed"], rep.get("threads_mask"), rep.get("max_ops"))
+    if rep["violation"]["kind"] == "reference_differs_between_executions" and r["kind"] == "clean":
+        r2 = run_one(rep["scenario_seed"], rep["other_miri_seed"])
+        if r2["kind"] == "clean" and r["info"]["refhash"] != r2["info"]["refhash"]:
+            print("VIOLATION property=C13 replay=%s" % path)
+            print("  cold-thread reference values differ between miri seeds %d and %d: %s vs %s" % (rep["miri_seed"], rep["other_miri_seed"], r["info"]["refhash"], r2["info"]["refhash"]))
+            return 1
     if r["kind"] == "clean":
         print("REPLAY clean: the recorded %s does not occur on the current tree" % rep["violation"]["kind"])
         return 0
